@@ -1444,6 +1444,10 @@ def PD(
         raise TypeError("`include_noise` must be a string.")
 
     # function body
+    if not np.issubdtype(input.signal.dtype, np.inexact):
+        # integer or bool samples: |E|^2 and E*conj(n) would be evaluated in the dtype of the field and wrap around
+        input = optical_signal(input.signal.astype(float), None if input.noise is None else input.noise.astype(float), n_pol=input.n_pol)
+
     i_sig = r * input.abs("signal") ** 2
 
     if input.n_pol == 2:
